@@ -5,7 +5,7 @@ Mirror of `weasyprint/css/computed_values.py` for the functions named in DESIGN 
 `length_pixels_only`, `bleed`, `vertical_align` (keyword / super / sub / length branches), the
 tuple-valued properties, content lists, `anchor`, `lang`, and the grid track sizes (`grid_template`,
 `grid_auto`, `_track_size`, `_compute_track_breadth`).  Not modelled: `background_image` (gradient
-objects), `image_orientation` (`round(angle / pi)`), `link` (URL resolution: C18 / C20).
+objects), `link` (URL resolution: C18 / C20).
 Tables come from `Gen/Units.lean` (regenerated from the source on every run).
 
 The real style object is lazy (`style['font_size']` is computed on access), so the accessors of
@@ -573,6 +573,36 @@ def lang (env : Env) (values : Val) : Except CErr Val :=
       else pure .null
     | _ => .error (.valueError "lang: name, key = values")
 
+/-! ### image-orientation -/
+
+/-- `math.pi`: the IEEE double nearest to π, as the exact rational it is. -/
+def pyPi : Rat := 884279719003555 / 281474976710656
+
+/-- Python's `round(x)` (half to even) on an exact rational. -/
+def roundHalfEven (q : Rat) : Int :=
+  let f := q.floor
+  let r := q - (f : Rat)
+  if r < 1 / 2 then f else if 1 / 2 < r then f + 1 else if f % 2 == 0 then f else f + 1
+
+/-- `image_orientation(style, name, values)`:
+```
+if values in ('none', 'from-image'): return values
+angle, flip = values
+return (round(angle / pi * 2) % 4 * 90, flip)
+```
+The float quotient `angle / pi * 2` is modelled by the exact rational quotient with `pyPi`; the
+harness draws angles that are exact multiples of `pi / 4` (for which both are equal) or lie well
+away from a rounding boundary. -/
+def imageOrientation (values : Val) : Except CErr Val :=
+  if values.isKw "none" || values.isKw "from-image" then .ok values
+  else do
+    match ← elems "image_orientation" values with
+    | [angle, flip] =>
+      match angle with
+      | .num a => pure (mkTuple [.num (((roundHalfEven (a / pyPi * 2)) % 4 * 90 : Int) : Rat), flip])
+      | _ => .error (.typeError "image_orientation: angle / pi")
+    | _ => .error (.valueError "image_orientation: angle, flip = values")
+
 /-! ### grid track sizes -/
 
 /-- `_compute_track_breadth(style, name, value)`; `none` = the function falls off its end (`None`).
@@ -714,6 +744,7 @@ def applyComputer (fname : String) (env : Env) (key : String) (value : Val) : Ex
   | "lang" => lang env value
   | "grid_template" => gridTemplate env value
   | "grid_auto" => gridAuto env value
+  | "image_orientation" => imageOrientation value
   | other => .error (.unsupported ("computer function " ++ other))
 
 /-- `if key in COMPUTER_FUNCTIONS: value = COMPUTER_FUNCTIONS[key](self, key, value)`. -/
